@@ -2,6 +2,7 @@ package obj
 
 import (
 	"fmt"
+	"math"
 	"reflect"
 
 	. "github.com/polydawn/refmt/tok"
@@ -80,10 +81,16 @@ func (mach *unmarshalMachinePrimitive) Step(_ *Unmarshaller, _ *unmarshalSlab, t
 	case reflect.Int, reflect.Int8, reflect.Int16, reflect.Int32, reflect.Int64:
 		switch tok.Type {
 		case TInt:
+			if mach.rv.OverflowInt(tok.Int) {
+				return true, ErrUnmarshalTypeCantFit{*tok, mach.rv, 0}
+			}
 			mach.rv.SetInt(tok.Int)
 			return true, nil
 		case TUint:
-			mach.rv.SetInt(int64(tok.Uint)) // todo: overflow check
+			if tok.Uint > math.MaxInt64 || mach.rv.OverflowInt(int64(tok.Uint)) {
+				return true, ErrUnmarshalTypeCantFit{*tok, mach.rv, 0}
+			}
+			mach.rv.SetInt(int64(tok.Uint))
 			return true, nil
 		default:
 			return true, ErrUnmarshalTypeCantFit{*tok, mach.rv, 0}
@@ -91,12 +98,15 @@ func (mach *unmarshalMachinePrimitive) Step(_ *Unmarshaller, _ *unmarshalSlab, t
 	case reflect.Uint, reflect.Uint8, reflect.Uint16, reflect.Uint32, reflect.Uint64, reflect.Uintptr:
 		switch tok.Type {
 		case TInt:
-			if tok.Int >= 0 {
+			if tok.Int >= 0 && !mach.rv.OverflowUint(uint64(tok.Int)) {
 				mach.rv.SetUint(uint64(tok.Int))
 				return true, nil
 			}
 			return true, ErrUnmarshalTypeCantFit{*tok, mach.rv, 0}
 		case TUint:
+			if mach.rv.OverflowUint(tok.Uint) {
+				return true, ErrUnmarshalTypeCantFit{*tok, mach.rv, 0}
+			}
 			mach.rv.SetUint(tok.Uint)
 			return true, nil
 		default:
@@ -161,7 +171,11 @@ func (mach *unmarshalMachinePrimitive) Step(_ *Unmarshaller, _ *unmarshalSlab, t
 		case TInt:
 			mach.rv.Set(reflect.ValueOf(int(tok.Int))) // Unmarshalling with no particular type info should default to using plain 'int' whenever viable.
 		case TUint:
-			mach.rv.Set(reflect.ValueOf(int(tok.Uint))) // Unmarshalling with no particular type info should default to using plain 'int' whenever viable.
+			if tok.Uint > math.MaxInt64 {
+				mach.rv.Set(reflect.ValueOf(tok.Uint)) // Not viable as an 'int': keep the value rather than wrapping it negative.
+			} else {
+				mach.rv.Set(reflect.ValueOf(int(tok.Uint))) // Unmarshalling with no particular type info should default to using plain 'int' whenever viable.
+			}
 		case TFloat64:
 			mach.rv.Set(reflect.ValueOf(tok.Float64))
 		case TNull:
